@@ -1174,6 +1174,13 @@ def check_c02(pid, tier, build, props):
         problems.append("correspondence loop_restructure_helper = Model/LoopEdit.v broken: %d calls differ, first: %r%s"
                         % (lt["mismatch_count"], lt["mismatches"][:1],
                            (" harness: %r" % lt["harness_errors"][:1]) if lt["harness_errors"] else ""))
+    from . import extractcalls
+    xt_ = extractcalls.tie(tier, common.seed())
+    extract_tie_ok = xt_["mismatch_count"] == 0 and not xt_["harness_errors"] and xt_["agree"] > 0
+    if not extract_tie_ok:
+        problems.append("correspondence extract_region = Model/Extract.v broken: %d calls differ, first: %r%s"
+                        % (xt_["mismatch_count"], xt_["mismatches"][:1],
+                           (" harness: %r" % xt_["harness_errors"][:1]) if xt_["harness_errors"] else ""))
     b5 = None
     if tier == "thorough":
         from . import bounded5
@@ -1183,6 +1190,11 @@ def check_c02(pid, tier, build, props):
     coverage = {
         "bounded_theorem_5_blocks": b5 if b5 is not None else "thorough tier only (676 sharded coqc runs over all 443 400 graphs)",
         "pipeline_model": dict(piperun.summary(pr), holds=tie_ok),
+        "extract_region_model": dict(xt_, holds=extract_tie_ok,
+                                     role="every call of transformations.extract_region made while the pipeline "
+                                          "restructures a graph (all levels of the hierarchy): the hierarchy after "
+                                          "the call equals Extract.extract of the hierarchy before it, block for "
+                                          "block with children in dictionary order"),
         "loop_helper_model": dict(lt, holds=loop_tie_ok,
                                   role="direct calls of transformations.loop_restructure_helper on (graph, loop) "
                                        "pairs - components of closed and of arbitrary graphs, some sets that are no "
